@@ -8,6 +8,7 @@ import vlib
 from vlib import cz, czl, fl, fll, fc, fcl
 from props import _pipelines as P
 from props import _c08_objects as O
+from props._loopir import loopir_tie, TRUSTED_LINE
 
 LEVEL_TEXT = ("Theorems in Coq (abstract field with conjugation and a twiddle character, every NFFT, every coefficient vector): "
               "the model of arma2psd equals (rho/T)|B(w^k)|^2/|A(w^k)|^2 on the grid, is linear in rho and inverse in T, with lengths, raise "
@@ -279,6 +280,9 @@ def run(ctx):
     from spectrum.arma import arma2psd
     rng = ctx.rng
     ctx.check_theorems('Properties/C08.v')
+    # arma2psd regenerated from the source into the loop-IR (fft = the DFT specification over a hidden twiddle parameter) vs the hand model:
+    # exact at QcC with tw1 / tw2 / tw4, and at binary64 against both the hand model (bit for bit) and the implementation
+    loopir_tie(ctx, ['arma2psd'])
 
     # ---------------- translator + theorems over the generated table
     src = os.path.join(vlib.SNAP, 'src', 'spectrum')
